@@ -37,7 +37,8 @@ CONSTANTS MaxSteps,     \* length of the histories
           Assums,       \* assumption sets at creation; "none" = no assumptions
           CloneAssums,  \* assumptions passed to a clone; "inherit" = none passed
           Subs,         \* subscripts requested from a clone; "none" = not requested
-          SysTypes      \* coordinate system types
+          SysTypes,     \* coordinate system types
+          BatchSizes    \* NewBatch creates this many equally named objects in one step (counters reach two digits)
 
 VARIABLES ids,          \* [Prefix -> Nat]: last id handed out per prefix
           objs,         \* live symbol-like objects, in creation order
@@ -49,7 +50,7 @@ NONE == "none"
 Prefix == {"SYM", "FUN", "QTY", "SYS", "C", "VEC", ""}
 
 AllActions == {"NewSymbol", "NewIndexed", "NewFunction", "NewQuantity", "NewSystem", "Transform", "Rotate",
-               "NewVectorSymbol", "NewVectorFunction", "NewQuantityVector",
+               "NewVectorSymbol", "NewVectorFunction", "NewQuantityVector", "NewBatch",
                "CloneAsSymbol", "CloneAsFunction", "CloneAsIndexed"}
 
 ASSUME Actions \subseteq AllActions
@@ -66,7 +67,7 @@ CloneOps == {"CloneAsSymbol", "CloneAsFunction", "CloneAsIndexed"}
 
 \* the record of an action; every field is always present (uniform JSON)
 Step(op, n, l, d, a, s, src, t) ==
-  [op |-> op, n |-> n, l |-> l, d |-> d, a |-> a, s |-> s, src |-> src, t |-> t, obj |-> Len(objs) + 1]
+  [op |-> op, n |-> n, l |-> l, d |-> d, a |-> a, s |-> s, src |-> src, t |-> t, obj |-> Len(objs) + 1, k |-> 1]
 
 \* A new live object.  disp / latex = NONE means "not given": the display name
 \* then IS the generated name (there is nothing else to show), the LaTeX name
@@ -74,10 +75,10 @@ Step(op, n, l, d, a, s, src, t) ==
 \* explicitD / explicitL = a display / LaTeX name was given by a caller (directly, through the default
 \* "LaTeX name = display name", or to the source a clone inherits from); only then is there a name to show
 \* that differs from the generated one.  For coordinate systems the field dim holds the system type.
-Obj(kind, p, disp, latex, dim, assum, src, explicitD, explicitL) ==
-  LET name == GenName(p, ids[p] + 1)
+Obj(kind, p, disp, latex, dim, assum, src, explicitD, explicitL, i) ==     \* the i-th id after the last one
+  LET name == GenName(p, ids[p] + i)
       d    == IF disp = NONE THEN name ELSE disp
-  IN [kind |-> kind, pfx |-> p, id |-> ids[p] + 1, name |-> name,
+  IN [kind |-> kind, pfx |-> p, id |-> ids[p] + i, name |-> name,
       display |-> d, latex |-> IF latex = NONE THEN d ELSE latex,
       explicitD |-> explicitD, explicitL |-> explicitL, dim |-> dim, assum |-> assum, src |-> src]
 
@@ -89,7 +90,7 @@ New(step, kind, p, disp, latex, dim, assum, src, also) ==
   /\ LET clone == src # 0 /\ step.op \in CloneOps
          eD == IF clone THEN step.n # NONE \/ objs[src].explicitD ELSE disp # NONE
          eL == IF clone THEN step.l # NONE \/ objs[src].explicitL ELSE disp # NONE \/ latex # NONE
-     IN objs' = Append(objs, Obj(kind, p, disp, latex, dim, assum, src, eD, eL))
+     IN objs' = Append(objs, Obj(kind, p, disp, latex, dim, assum, src, eD, eL, 1))
   /\ hist' = Append(hist, step)
 
 -----------------------------------------------------------------------------
@@ -118,11 +119,25 @@ NewVectorSymbol(n, d) ==      \* a symbol (SYM name) that also takes a VEC id fo
   New(Step("NewVectorSymbol", n, NONE, d, NONE, NONE, 0, NONE), "vecsym", "SYM", n, NONE, d, "open", 0, {"VEC"})
 NewVectorFunction(n, d) ==
   New(Step("NewVectorFunction", n, NONE, d, NONE, NONE, 0, NONE), "vecfun", "FUN", n, NONE, d, "open", 0, {})
+\* k equally named objects of one kind in one step: the histories in which a counter reaches two digits
+\* (SYM9 -> SYM10, ...) and display names such as "zq" / "zq1" (one name = another one followed by digits)
+\* meet; at most one batch per history
+BatchKinds == [symbol |-> "SYM", indexed |-> "SYM", function |-> "FUN", quantity |-> "QTY"]
+NewBatch(kind, n, d, a, k) ==
+  /\ Room /\ "NewBatch" \in Actions
+  /\ \A j \in DOMAIN hist : hist[j].op # "NewBatch"
+  /\ n # NONE
+  /\ LET p == BatchKinds[kind]
+         as == IF kind \in {"symbol", "indexed"} THEN a ELSE NONE
+     IN /\ ids' = [ids EXCEPT ![p] = @ + k]
+        /\ objs' = objs \o [i \in 1..k |-> Obj(kind, p, n, NONE, d, as, 0, TRUE, TRUE, i)]
+        /\ hist' = Append(hist, [Step("NewBatch", n, NONE, d, as, NONE, 0, kind) EXCEPT !.k = k])
+
 \* a quantity vector is a container: three component quantities and one anonymous id, no symbol-like object
 NewQuantityVector ==
   /\ Room /\ "NewQuantityVector" \in Actions
   /\ ids' = [ids EXCEPT ![""] = @ + 1, !["QTY"] = @ + 3]
-  /\ hist' = Append(hist, [Step("NewQuantityVector", NONE, NONE, NONE, NONE, NONE, 0, NONE) EXCEPT !.obj = 0])
+  /\ hist' = Append(hist, [Step("NewQuantityVector", NONE, NONE, NONE, NONE, NONE, 0, NONE) EXCEPT !.obj = 0, !.k = 0])
   /\ UNCHANGED objs
 
 (* clones: source i must be a symbol or an indexed symbol *)
@@ -156,6 +171,8 @@ Next ==
   \/ \E i \in DOMAIN objs : Rotate(i)
   \/ \E n \in Names, d \in DimNames : NewVectorSymbol(n, d) \/ NewVectorFunction(n, d)
   \/ NewQuantityVector
+  \/ \E kind \in DOMAIN BatchKinds, n \in Names, d \in DimNames, a \in Assums, k \in BatchSizes :
+        NewBatch(kind, n, d, a, k)
   \/ \E i \in DOMAIN objs, n \in Names, l \in Latexes, s \in Subs, a \in CloneAssums : CloneAsSymbol(i, n, l, s, a)
   \/ \E i \in DOMAIN objs, n \in Names, l \in Latexes, s \in Subs : CloneAsFunction(i, n, l, s)
   \/ \E i \in DOMAIN objs, n \in Names, l \in Latexes, a \in CloneAssums : CloneAsIndexed(i, n, l, a)
@@ -166,7 +183,7 @@ Spec == Init /\ [][Next]_vars
 (* Properties (checked by TLC in every configuration).                        *)
 
 TypeOK == /\ ids \in [Prefix -> Nat]
-          /\ Len(hist) <= MaxSteps /\ Len(objs) <= Len(hist)
+          /\ Len(hist) <= MaxSteps
           /\ \A i \in DOMAIN objs : objs[i].pfx \in Prefix /\ objs[i].src \in 0..(i - 1)
 
 \* distinct objects never share their internal name - also across prefixes and kinds
